@@ -14,6 +14,7 @@ RULE = ("G_live witness graphs (+ the repository's own test topology) under both
         "checked for isolation (own nonce only, seq/time from 0, C03/C04 clauses); one evaluation = one episode; non-trivial = "
         "episode whose forced gate was reached or that ended with an immediate stop/next reset; distinct by spec digest x episode "
         "x ending")
+RULE += " Built later: blocking-cycle family (slow->fast blocking edge, blocking skipped back-edge, rate multiple <= 4, one starved connection worker)."
 RULE += " Built later: ring family (a bursty fast node between the supervisor and a slow node) that makes a lost wake-up in a connection's selection queue a deadlock."
 RULE += " Built later: episodes start from the initial or from the previous episode's final graph state (carried over; only the seq/time-from-0 clauses apply then); one node with a 1 s start-up routine on the wall clock (episode time must not include it)."
 MIN_NONTRIVIAL = {"quick": 20, "thorough": 300}
@@ -43,13 +44,15 @@ def queue_diagnosis(g):
     """Read-only look at the event queues of a quiescent graph (all workers parked): which connection has a selection whose
     messages are all there but that nobody will process (lost wake-up), and how many scheduling tokens each node has left
     (0 everywhere = the documented num_tokens limit). Diagnostic only; the verdict is the call that never returns."""
-    out = dict(ready_selection_not_processed=[], tokens={})
+    out = dict(ready_selection_not_processed=[], ready_ts_max_not_processed=[], tokens={})
     try:
         for n, w in g._async_nodes.items():
             out["tokens"][n] = len(w.q_tick) if w.q_tick is not None else None
             for iname, i in w.inputs.items():
                 if i.q_expected_select and len(i.q_msgs) >= i.q_expected_select[0][1]:
                     out["ready_selection_not_processed"].append(f"{iname}->{n}")
+                if i.q_expected_ts_max and i.q_expected_ts_max[0] <= len(i.q_ts_input):
+                    out["ready_ts_max_not_processed"].append(f"{iname}->{n}")
     except Exception as e:  # noqa
         out["error"] = repr(e)[:100]
     return out
@@ -67,6 +70,8 @@ def run_case(case):
         # isolation-only cases outside G_live: non-blocking graphs WITH computation overruns (drift, queued messages at stop);
         # a stall in run()/step() on such a graph is outside the supported class -> inconclusive, never a violation
         spec = S.rand_spec(case["spec_seed"], allow_blocking=False, allow_advance=False, overrun=True, n_max=4)
+    elif case.get("kind") == "blk":
+        spec = S.rand_blk(case["spec_seed"])  # cycles of blocking connections with a slow->fast member (zero-timestamp ts_max entries)
     elif case.get("kind") == "cyc":
         spec = S.rand_cyc(case["spec_seed"])  # rings with a bursty fast member (zero-message selections queued behind incomplete ones)
     else:
@@ -82,11 +87,18 @@ def run_case(case):
     if wall and rnd.random() < 0.7:
         slow_start = 1.0
         rnd.choice(list(nodes.values())).startup_sleep = slow_start  # episode time must start AFTER the start-up routines
-    mon = D.Monitor(seed=case["spec_seed"], p_sleep=0.15 if not wall else 0.0, max_sleep=0.003).install()
+    slow = None
+    if case.get("kind") in ("blk", "cyc") and rnd.random() < 0.75:
+        # one starved connection worker (10x slower): timestamps reach a queue after the expectations that wait for them
+        slow = "n1/n0" if case.get("kind") == "blk" else rnd.choice([f"{c['inp']}/{c['out']}" for c in spec["conns"]])
+    mon = D.Monitor(seed=case["spec_seed"], p_sleep=(0.1 if slow else 0.15) if not wall else 0.0, max_sleep=0.004 if slow else 0.003, slow_owner=slow).install()
     H = gen_history(rnd, rnd.randint(3, 6))
     iso = case.get("kind") == "iso"
     if iso:
         H = [dict(style=rnd.choice(["run", "step"]), n=rnd.randint(6, 14), end=rnd.choice(["stop", "stop_now"]), mid_reset=False, pre_stop=False) for _ in range(3)]
+    if case.get("kind") == "blk":  # longer episodes: the backlog of unprocessed queue entries needs a few periods to build up
+        H = [dict(style=rnd.choice(["run", "step"]), n=rnd.randint(10, 16), end=rnd.choice(["stop", "stop_now", "stop2"]), mid_reset=False, pre_stop=False,
+                  carry=(e > 0 and rnd.random() < 0.3)) for e in range(3)]
     state = dict(op=None, ep=-1, done=False, err=None, calls=0, results=[], gates=0, gate_misses=0)
 
     def call(name, fn, *a):
@@ -280,5 +292,6 @@ def plan(tier, seed):
     cases += [dict(name=f"wall-{i}", spec_seed=seed * 100057 + 5000 + i, clock="wall", timeout=300) for i in range(nw)]
     cases += [dict(name=f"iso-{i}", kind="iso", spec_seed=seed * 100057 + 7000 + i, clock="sim", timeout=300) for i in range(12 if tier == "quick" else 150)]
     cases += [dict(name=f"cyc-{i}", kind="cyc", spec_seed=seed * 100057 + 11000 + i, clock="sim", timeout=300) for i in range(10 if tier == "quick" else 120)]
+    cases += [dict(name=f"blk-{i}", kind="blk", spec_seed=seed * 100057 + 13000 + i, clock="sim", timeout=300) for i in range(16 if tier == "quick" else 160)]
     cases += [dict(name=f"corpus-{i}", spec_seed=seed * 100057 + 9000 + i, corpus=i % 3, clock="sim", timeout=300) for i in range(3 if tier == "quick" else 12)]
     return cases
